@@ -23,7 +23,7 @@ me="$(basename "$0")"
 if [[ "$1" == "--config" ]]; then cat "$ctl/$me.cfg"; exit 0; fi
 n=$(cat "$ctl/counter"); echo $((n+1)) > "$ctl/counter"
 item=$(sed -n "$((n+1))p" "$ctl/script")
-jq -r --arg me "$me" '.[0] | $me + "#" + (.binding // "") + " " + .fromVersion + ">" + .toVersion + "[" + ([(.review.request.objects // [])[] | (.metadata.name + "@" + .apiVersion)] | join(",")) + "]"' "$BINDING_CONTEXT_PATH" >> "$ctl/log"
+jq -r --arg me "$me" '.[0] | $me + "#" + (.binding // "") + " " + .fromVersion + ">" + .toVersion + "[" + ([(.review.request.objects // [])[] | ((.metadata.name // "0") + "@" + (.apiVersion // ""))] | join(",")) + "]"' "$BINDING_CONTEXT_PATH" >> "$ctl/log"
 group=$(cat "$ctl/group"); desired=$(cat "$ctl/desired")
 to=$(jq -r '.[0].toVersion' "$BINDING_CONTEXT_PATH")
 case "$to" in */*) fullto="$to";; *) fullto="$group/$to";; esac
@@ -31,6 +31,18 @@ objs() { # $1 = count, $2 = apiVersion to set ("" = leave)
   jq -c --argjson n "$1" --arg v "$2" '(.[0].review.request.objects // []) as $o
     | [range(0;$n) | . as $j | (if $j < ($o|length) then $o[$j] else {"apiVersion": (($o[0].apiVersion) // ""), "kind":"Thing", "metadata":{"name": ((900+$j)|tostring)}} end)
        | (if $v != "" then .apiVersion = $v else . end)]' "$BINDING_CONTEXT_PATH"
+}
+mixed() { # $1 = one letter per returned object: c converted (the rule's toVersion) · d desired apiVersion ·
+  # o left as it came · n apiVersion removed · b {} · z null; $2 = the rule's toVersion
+  jq -c --arg s "$1" --arg v "$2" --arg d "$desired" '(.[0].review.request.objects // []) as $o
+    | [range(0; $s|length) as $j | ($s[$j:$j+1]) as $k
+       | (if $j < ($o|length) then $o[$j] else {"apiVersion": (($o[0].apiVersion) // ""), "kind":"Thing", "metadata":{"name": ((900+$j)|tostring)}} end)
+       | if $k == "c" then .apiVersion = $v
+         elif $k == "d" then .apiVersion = $d
+         elif $k == "o" then .
+         elif $k == "n" then (if . == null then null else del(.apiVersion) end)
+         elif $k == "b" then {}
+         else null end]' "$BINDING_CONTEXT_PATH"
 }
 kind="${item:0:1}"; rest="${item:1}"
 case "$kind" in
@@ -40,6 +52,7 @@ case "$kind" in
   k) echo "{\"convertedObjects\": $(objs "$rest" "$fullto")}" > "$CONVERSION_RESPONSE_PATH" ;;
   w) echo "{\"convertedObjects\": $(objs "$rest" "")}" > "$CONVERSION_RESPONSE_PATH" ;;
   d) echo "{\"convertedObjects\": $(objs "$rest" "$desired")}" > "$CONVERSION_RESPONSE_PATH" ;;
+  p) echo "{\"convertedObjects\": $(mixed "$rest" "$fullto")}" > "$CONVERSION_RESPONSE_PATH" ;;
   m) cnt="${rest%%:*}"; msg="${rest#*:}"
      echo "{\"failedMessage\": \"$msg\", \"convertedObjects\": $(objs "$cnt" "$fullto")}" > "$CONVERSION_RESPONSE_PATH" ;;
 esac
@@ -222,7 +235,10 @@ func c15RunE2E(r *Run, c *Case, e c15E2E) {
 						Name string `json:"name"`
 					} `json:"metadata"`
 				}
-				_ = json.Unmarshal(raw, &o)
+				_ = json.Unmarshal(raw, &o) // `null`, `{}`: no name, no apiVersion
+				if o.Metadata.Name == "" {
+					o.Metadata.Name = "0"
+				}
 				oi = append(oi, o.Metadata.Name)
 				ov = append(ov, o.APIVersion)
 			}
@@ -375,6 +391,55 @@ func c15E2ECorpus(r *Run) {
 		c15RunE2E(r, c, c15E2E{Rules: rules, Owner: []int{0, 0, 0}, Bind: []int{2, 0, 1}, NHooks: 1,
 			From: "g.io/v1", Desired: "g.io/v4", NObjs: 1, Script: []string{"k1", "k1", "k1"}})
 	})
+	// hook answers whose objects differ: some converted, some left behind, some without apiVersion,
+	// some `null` — at the first, a middle and the last position, at the last and at an earlier step
+	two := []c15Rule{{"v1", "v2"}, {"v2", "v3"}}
+	for i, sc := range [][]string{
+		{"k3", "pcnc"}, {"k3", "pccz"}, {"k3", "pzcc"}, {"k3", "pcco"}, {"k3", "pbcc"}, {"k3", "pccb"},
+		{"pdnn", "k3"}, {"pdzd", "k3"}, {"pcoz", "k3"}, {"k3", "pccc"},
+	} {
+		sc := sc
+		r.One(20+i, func(c *Case, _ *Rng) {
+			c.Desc = "corpus: two steps, three objects, one step answers with objects that differ (" + strings.Join(sc, " ") +
+				": c converted, d desired, o untouched, n apiVersion removed, b {}, z null)"
+			c15RunE2E(r, c, c15E2E{Rules: two, Owner: []int{0, 0}, NHooks: 1, From: "g.io/v1", Desired: "g.io/v3", NObjs: 3, Script: sc})
+		})
+	}
+}
+
+// c15MixedItem is a hook answer with one letter per object (see the hook script): mostly converted
+// objects with one or two that are not, or any mixture.
+func c15MixedItem(c *Case, rng *Rng, n int) string {
+	if n < 1 {
+		n = 1
+	}
+	good := byte('c')
+	if rng.Chance(25) {
+		good = 'd'
+	}
+	spec := bytes.Repeat([]byte{good}, n)
+	const bad = "onzb"
+	if rng.Chance(65) {
+		for k := rng.Range(1, 2); k > 0; k-- {
+			at := rng.Intn(n)
+			spec[at] = bad[rng.Intn(len(bad))]
+			switch {
+			case at == 0:
+				c.Note("e2e:mixed:first-object-not-converted")
+			case at == n-1:
+				c.Note("e2e:mixed:last-object-not-converted")
+			default:
+				c.Note("e2e:mixed:a-middle-object-not-converted")
+			}
+		}
+	} else {
+		const any = "ccccddonzb"
+		for i := range spec {
+			spec[i] = any[rng.Intn(len(any))]
+		}
+		c.Note("e2e:mixed:any-mixture")
+	}
+	return "p" + string(spec)
 }
 
 func c15E2ERandom(r *Run) {
@@ -412,9 +477,21 @@ func c15E2ERandom(r *Run) {
 				e.From, e.Desired = c15Group+"/"+a, c15Group+"/"+b
 				e.NObjs = PickOne(rng, []int{0, 1, 1, 2, 2, 3})
 				faulty := rng.Chance(60)
+				// a third of the cases: one step (mostly the last) answers with objects that differ
+				mixedAt := -1
+				if d > 0 && rng.Chance(35) {
+					e.NObjs = rng.Range(2, 4)
+					faulty = rng.Chance(15)
+					mixedAt = d - 1
+					if rng.Chance(35) {
+						mixedAt = rng.Intn(d)
+					}
+				}
 				for i := 0; i < d; i++ {
 					it := fmt.Sprintf("k%d", e.NObjs)
-					if faulty && (rng.Chance(100/d+10) || (i == d-1 && rng.Chance(40))) {
+					if i == mixedAt {
+						it = c15MixedItem(c, rng, PickOne(rng, []int{e.NObjs, e.NObjs, e.NObjs, e.NObjs, e.NObjs - 1, e.NObjs + 1}))
+					} else if faulty && (rng.Chance(100/d+10) || (i == d-1 && rng.Chance(40))) {
 						switch rng.Intn(8) {
 						case 0:
 							it = "x"
